@@ -144,7 +144,7 @@ def ops_for(game, obj):
     from reamber.algorithms.pattern.Pattern import Pattern
     from reamber.algorithms.pattern.combos.PtnCombo import PtnCombo
     ch = (lambda o: o.maps[0]) if hasattr(obj, "maps") else (lambda o: o)
-    ops = [("rate", lambda o: o.rate(1.5), True),
+    ops = [("rate", lambda o: o.rate(1.5), True), ("rate_by_1", lambda o: o.rate(1.0), True),
            ("deepcopy", lambda o: o.deepcopy(), True),
            ("stack", lambda o: ch(o).stack(), False),
            ("full_ln", lambda o: full_ln(ch(o), gap=100, ln_as_hit_thres=50), True),
